@@ -103,6 +103,7 @@ PROPS = {
             {"name": "snapshots", "run": "TestSnapshots", "kind": "rapid", "checks": {Q: 20000, T: 1920000}, "shards": {Q: 4, T: 16}},
             {"name": "usecase", "run": "TestUseCaseSnapshots", "kind": "rapid", "checks": {Q: 10000, T: 600000}, "shards": {Q: 2, T: 8}},
             {"name": "remoteusecase", "run": "TestRemoteUseCaseSnapshots", "kind": "rapid", "checks": {Q: 6000, T: 400000}, "shards": {Q: 2, T: 8}},
+            {"name": "otherfunctions", "run": "TestNonPersistingOtherFunctions", "kind": "rapid", "checks": {Q: 6000, T: 400000}, "shards": {Q: 2, T: 8}},
         ],
     },
     "C08": {
